@@ -35,11 +35,25 @@ def lookup(callee, pc=None):
     if r != 0:
         return r
     r = None
-    for pat, fn in MODELS:
-        if pat.match(callee):
-            r = fn; break
+    for cand in (callee, _norm_paths(callee)):
+        for pat, fn in MODELS:
+            if pat.match(cand):
+                r = fn; break
+        if r is not None:
+            break
     _lk[callee] = r
     return r
+
+
+_NORM = re.compile(r'\b(?:core|alloc|std)::(?:result|option|vec|string|borrow|boxed|cell|cmp|mem|convert|collections::btree_map|collections::btree|collections|iter|fmt)::(?=[A-Z])')
+
+
+def _norm_paths(callee):
+    """no_std builds print `core::result::Result`, `alloc::vec::Vec`, ...: normalise to the short names the model patterns use"""
+    c = _NORM.sub('', callee)
+    c = c.replace('core::slice::Iter', 'std::slice::Iter').replace('alloc::vec::IntoIter', 'std::vec::IntoIter').replace('alloc::vec::from_elem', 'std::vec::from_elem')
+    c = c.replace('core::ops::Range', 'std::ops::Range').replace('alloc::slice::', 'std::slice::').replace('core::mem::', 'std::mem::').replace('core::cmp::', 'std::cmp::')
+    return c
 
 
 def rt_type(v):
